@@ -35,6 +35,19 @@ SPECS = {
         partial=["C05_partial: full statement minus CommaSafe/precSafe; excluded classes are known findings K05a, K05bcd; return/event sites additionally K05g (add_types_prefix)",
                  "parse_print (parseTsTy (printSpec t) = some t) is tested per case, not proved"],
     ),
+    "C18": dict(
+        groups=["mappings"],
+        only_oracles=["mapping_is_substitution", "mapped_name_absent", "unmapped_identical", "nopanic"],
+        theorems="Typegen.Theorems.C18",
+        trusted_base=[LEAN_TB, HARNESS_TB,
+                      "oracle `mapping_is_substitution` compares the real mapped rendering with the *model's* unmapped rendering of the substituted type (modulo `.coerce`, since a mapped number is z.number()); `unmapped_identical` compares two real renderings"],
+        assumptions=["targets in {string, number, boolean}; mapped names are not also project-defined types (that case is decided at project level, finding K18a)",
+                     "positions excluded by the C05/C02 findings (comma-unsafe, Option directly under an array, add_types_prefix shapes) are excluded from `mapping_is_substitution` too"],
+        rule="6 names (plain, generic `DateTime<Utc>`, and an unmapped control) at 17 constructor positions x 5 sites x 2 modes x 3 mapping tables (quick: every second), "
+             "plus random types over mapped/unmapped names to depth 4; non-trivial = at least one constructor; distinct = (type, site, mode, table)",
+        exhaustive={"quick": False, "thorough": True},
+        exhaustive_scope={"thorough": "17 positions x 5 sites x 2 modes x 3 tables x 6 names"},
+    ),
     "C04": dict(
         groups=["params"],
         theorems="Typegen.Theorems.C04",
